@@ -21,6 +21,12 @@ CHECKS = {
             "filter/sort/page spec for all well-formed queries + CRUD laws; three-way differential run (memory back end, SQLite, Lean model)",
             "Mapper theorems are complete for the generated tables. memQuery is a hand transcription of collect.rs tied by differential runs; "
             "that SQLite executes the generated SQL as the spec reads it is compared, not proved.", "5 C10"),
+    "C14": ("Lean 4 K2 theorems by mutual structural induction over JSON values (fromJs . toJs preserves every value whose integers are <= 2^53) and "
+            "over segmented template strings (the scanner finds exactly the n templates) + differential runs through a deployed workflow with real QuickJS "
+            "and against the engine's own get_exprs",
+            "Theorems are about Model/Value.lean and Model/Tmpl.lean; the branch structure of the conversion (wrap vs widen, integral-double bound) and the "
+            "lazy/greedy flag of the regex are regenerated from value.rs/convert.rs on every run. QuickJS and String::replace are compared, not proved.",
+            "5 C14"),
 }
 
 NOT_YET = {}
